@@ -301,4 +301,28 @@ PROPS['C03'] = {
     'level_text': 'Lean 4 theorems on a reference-level (heap) model of states: frame/ownership invariant preserved by all seven in-place transition functions, copy allocates only, observation assigns only into fresh containers; model tied to /repo by identity-level differential execution.',
 }
 
+WINM = 'harness.corr_win'
+PROPS['C14'] = {
+    'targets': ['GridVerse.Props.C14'],
+    'theorem_files': [('GridVerse/Props/C14.lean', 'C14_')],
+    'audit_prefix': 'C14_',
+    'families': {
+        'quick': [(WINM, 'fam_win_theorem_plans', 1920, 16), (WINM, 'fam_win_solver', 960, 16), (WINM, 'fam_win_real_plans', 640, 16), (RESETM, 'fam_reset_random', 4000, 16), (CORE, 'fam_trans_random', 3000, 16), (CORE, 'fam_term', 2000, 16)],
+        'thorough': [(WINM, 'fam_win_theorem_plans', 96000, 16), (WINM, 'fam_win_solver', 48000, 16), (WINM, 'fam_win_real_plans', 16000, 16), (RESETM, 'fam_reset_random', 200000, 16), (CORE, 'fam_trans_random', 100000, 16), (CORE, 'fam_term', 50000, 16)],
+    },
+    'oracle_cases': {'quick': 480, 'thorough': 16000},
+    'trusted_base': [
+        'reset and transition functions modelled by hand (Model/Reset.lean, Model/Transition.lean), tied by correspondence with recorded draws; the structural theorems about the layouts are C13',
+        'the plan witnesses are executable (Model/Win.lean) and are run on the real reset / transition / terminating functions for every sampled reset',
+        'breadth-first search on the real dynamics (harness/corr_win.py, oracle): used to cross-check solvability and to classify unwinnable instances, never to establish the property',
+    ],
+    'assumptions': [
+        'winnable = some action sequence and some resolution of the draws reaches the rewarded goal with no earlier terminating step (exists-draws reading for the stochastic obstacle dynamics)',
+        'each layout is paired with the dynamics and termination of the shipped configurations that use it',
+    ],
+    'partial': 'Proved for all parameters and draws: empty, memory, keydoor (closed-form plans). rooms, crossing, teleport: only certificate soundness is proved; winnability is decided per sampled instance by a model-found plan executed on the real code (no for-all theorem yet). memory_rooms and crowded dynamic_obstacles are false today: known findings F9, F11.',
+    'level_text': 'Lean 4 theorems: closed-form winning plans for empty / memory / keydoor for every parameter value and draw stream, soundness of plan certificates for the other layouts; plans executed on the real dynamics.',
+    'level_note': 'Partial: for rooms, crossing, teleport, memory_rooms and dynamic_obstacles the for-all-parameters statement is not proved; those are decided per sampled instance via proved-sound certificates. Trusted: Lean kernel; standard axioms; hand-written model tied by differential execution.',
+}
+
 NOT_CLAIMED = {}
